@@ -32,12 +32,15 @@ def _digests(args):
     return out
 
 
-def all_digests(workers=16):
+def all_digests(workers=16, scale=None):
+    scale = int(os.environ.get('VERIF_DET_SCALE', scale or 1))
     jobs = []
     for p in PROPS:
         mod = importlib.import_module('scenarios.' + p)
         for kind, _ in mod.PLAN['quick']:
-            jobs.append((p, kind, list(range(N.get(p, 5)))))
+            n = N.get(p, 5) * scale
+            for a in range(0, n, 5):
+                jobs.append((p, kind, list(range(a, min(n, a + 5)))))
     res = {}
     with cf.ProcessPoolExecutor(max_workers=workers,
                                 mp_context=multiprocessing.get_context('fork')) as ex:
@@ -55,7 +58,8 @@ def main():
     import networkx
     print('numpy', numpy.__version__, 'scipy', scipy.__version__, 'networkx', networkx.__version__)
     if os.environ.get('VERIF_INTERNAL_OUT'):
-        json.dump(all_digests(8), open(os.environ['VERIF_INTERNAL_OUT'], 'w'))
+        json.dump(all_digests(int(os.environ.get('VERIF_DET_WORKERS', 8))),
+                  open(os.environ['VERIF_INTERNAL_OUT'], 'w'))
         return 0
     mine = all_digests()
     bad = [k for k, (a, b, _) in mine.items() if a != b]
@@ -66,10 +70,12 @@ def main():
     import tempfile
     with tempfile.TemporaryDirectory(prefix='verif-setup-') as d:
         outp = os.path.join(d, 'o.json')
-        env = dict(os.environ, VERIF_HASHSEED='7', PYTHONHASHSEED='7', VERIF_INTERNAL_OUT=outp)
+        env = dict(os.environ, VERIF_HASHSEED='7', PYTHONHASHSEED='7', VERIF_INTERNAL_OUT=outp,
+                   VERIF_DET_WORKERS=os.environ.get('VERIF_DET_WORKERS', '5'))
         here = os.path.dirname(os.path.dirname(os.path.abspath(__file__)))
         p = subprocess.run([sys.executable, os.path.join(here, 'check.py'), '--setup'], env=env,
-                           capture_output=True, text=True, timeout=900)
+                           capture_output=True, text=True,
+                           timeout=max(900, 120 * int(os.environ.get('VERIF_DET_SCALE', 1))))
         if p.returncode != 0:
             print(p.stdout[-2000:], p.stderr[-2000:])
             return 2
@@ -78,6 +84,15 @@ def main():
     if diff:
         print('HARNESS-NONDETERMINISM (fresh interpreter, PYTHONHASHSEED=7):', diff[:5])
         return 3
-    print('determinism smoke test: %d runs x (twice in-process + fresh interpreter under another '
-          'hash seed) identical' % len(mine))
+    print('determinism smoke test: %d runs x (twice in-process at 16 workers + fresh interpreter '
+          'under PYTHONHASHSEED=7 at %s workers) identical' % (
+              len(mine), os.environ.get('VERIF_DET_WORKERS', '5')))
+    rep = os.environ.get('VERIF_DET_REPORT')
+    if rep:
+        per = {}
+        for k in mine:
+            per[k.split('/')[0]] = per.get(k.split('/')[0], 0) + 1
+        json.dump({'runs': len(mine), 'per_property': per, 'in_process_repeats': 2,
+                   'fresh_interpreter_hashseed': '7', 'worker_counts': [16, int(os.environ.get(
+                       'VERIF_DET_WORKERS', '5'))], 'mismatches': 0}, open(rep, 'w'), indent=1)
     return 0
